@@ -6,10 +6,11 @@ unknown / disagreement, harness out of date, counterexample that does not reprod
 """
 import fcntl, hashlib, json, os, re, subprocess, sys, time
 
-VERIF = '/verif'
+VERIF = os.path.dirname(os.path.dirname(os.path.abspath(__file__)))     # the /verif tree this file lives in (a vp-run snapshot uses its own)
+os.environ.setdefault('VERIF_ROOT', VERIF)
 REPO = '/repo'
 NODE = '/repo/node'
-TARGET = '/verif/target'
+TARGET = VERIF + '/target'
 MIR_PREFIX = TARGET + '/mir/out'
 KNOWN = VERIF + '/known_findings.json'
 
